@@ -313,18 +313,22 @@ func (r *Run) Violations() int {
 	return len(r.violCount)
 }
 
-var bfeFrame = regexp.MustCompile(`github\.com/bfenetworks/bfe/([^\s(]+)`)
-
-// PanicSig derives a signature from a panic stack: the innermost bfe frame.
+// PanicSig derives a signature from a panic stack: the innermost bfe frame
+// (function name with receiver, arguments stripped).
 func PanicSig(stack []byte) string {
-	// skip frames of runtime/panic; first bfe frame is the culprit
-	m := bfeFrame.FindSubmatch(stack)
-	if m == nil {
-		return "panic:unknown"
+	for _, line := range strings.Split(string(stack), "\n") {
+		line = strings.TrimSpace(line)
+		if !strings.HasPrefix(line, "github.com/bfenetworks/bfe/") {
+			continue
+		}
+		fn := strings.TrimPrefix(line, "github.com/bfenetworks/bfe/")
+		if i := strings.LastIndexByte(fn, '('); i > 0 {
+			fn = fn[:i]
+		}
+		fn = strings.TrimSuffix(fn, ".func1")
+		return "panic:" + fn
 	}
-	s := string(m[1])
-	s = strings.TrimSuffix(s, ".func1")
-	return "panic:" + s
+	return "panic:unknown"
 }
 
 // Try runs fn and converts a panic into a violation. desc is only called on
